@@ -117,9 +117,16 @@ func simStdio(args []string) int {
 		n++
 		if sp.PauseAt > 0 && n == sp.PauseAt {
 			os.WriteFile(filepath.Join(sp.Ctrl, "paused"), []byte(fmt.Sprint(n)), 0644)
+			ppid := os.Getppid()
 			for {
 				if _, err := os.Stat(filepath.Join(sp.Ctrl, "resume")); err == nil {
 					break
+				}
+				// the client was killed (the pty's SIGHUP is ignored) or the
+				// work directory is gone: nobody will resume us
+				if _, err := os.Stat(sp.Ctrl); err != nil || os.Getppid() != ppid {
+					finish()
+					return 0
 				}
 				time.Sleep(5 * time.Millisecond)
 			}
